@@ -96,7 +96,7 @@ def main(props, repo, jobs=16):
         corpus = [v for v in corpus if v["property"] in props or (v["property"] == "*" and "TWINS" in props)]
     t0 = time.time()
     results = []
-    with cf.ThreadPoolExecutor(max_workers=max(1, jobs // 4)) as ex:
+    with cf.ThreadPoolExecutor(max_workers=max(1, jobs // 2)) as ex:
         for r in ex.map(lambda v: run_variant(v, repo), corpus):
             results.append(r)
             print(f"{r['status']:18} {r.get('property', ''):4} {r['name']}  {r.get('wall', '')}s  {r.get('why', '') or ''}")
